@@ -344,6 +344,12 @@ func Run(r *mc.Run) {
 	}
 	partPairs(r, "many-components", dotted, nil, map[string]interface{}{"shape": "d(.d)* with up to max_components components over {0,1}; d(sep d)* up to 6 over {1,2} for sep in - + ~ a", "max_components": maxComp, "strings": len(dotted)})
 
+	// the k-th of up to 40 components decides, for every k; digit runs of up to 65537 significant digits
+	ladders := gen.ComponentLadders()
+	partPairs(r, "component-ladders", ladders, nil, map[string]interface{}{"shape": "9..40 components, differing from a base in exactly one component (every position) or in two adjacent ones with opposite signs; separators . + a", "strings": len(ladders)})
+	ldr := gen.LongDigitRuns()
+	partPairs(r, "long-digit-runs", ldr, nil, map[string]interface{}{"shape": "one deciding digit run of 1..65537 significant digits (lengths around 2^7, 2^8, 2^9, 2^16), small and large leading digit, leading zeros, a letter behind", "strings": len(ldr)})
+
 	// comparisons made at the same time: every schedule of small thread programs (instrumented build)
 	sched.Explore(r, "concurrent-comparisons", ConcurrentPrograms())
 
